@@ -29,22 +29,17 @@ func c07Check(dec config.DecoderType, file string, want []c07Entry, passes int) 
 	if err != nil {
 		return
 	}
+	// requests are built either right after each Scan (streaming) or only after everything has
+	// been scanned (as the preloading provider does)
+	deferBuild := vNondetBool("deferBuild")
+	var pending []DecodedAmmo
 	n := 0
-	for {
-		a, err := d.Scan(context.Background())
-		if err != nil {
-			vCheck("F1.ends.at.pass.limit", err == ErrPassLimit)
-			break
-		}
-		vCheck("F1.not.too.many", n < passes*len(want))
-		if n >= passes*len(want) {
-			return
-		}
-		w := want[n%len(want)]
+	verify := func(a DecodedAmmo, k int) bool {
+		w := want[k%len(want)]
 		req, berr := a.BuildRequest()
 		vCheck("F2.request.builds", berr == nil)
 		if berr != nil {
-			return
+			return false
 		}
 		vCheck("F2.tag", a.Tag() == w.tag)
 		vCheck("F2.path", req.URL.Path == w.uri)
@@ -59,7 +54,29 @@ func c07Check(dec config.DecoderType, file string, want []c07Entry, passes int) 
 		} else {
 			vCheck("F2.method.get", req.Method == "GET")
 		}
+		return true
+	}
+	for {
+		a, err := d.Scan(context.Background())
+		if err != nil {
+			vCheck("F1.ends.at.pass.limit", err == ErrPassLimit)
+			break
+		}
+		vCheck("F1.not.too.many", n < passes*len(want))
+		if n >= passes*len(want) {
+			return
+		}
+		if deferBuild {
+			pending = append(pending, a)
+		} else if !verify(a, n) {
+			return
+		}
 		n++
+	}
+	for k, a := range pending {
+		if !verify(a, k) {
+			return
+		}
 	}
 	vCheck("F1.every.entry.every.pass", n == passes*len(want))
 	vObserve("n", int64(n))
